@@ -15,6 +15,7 @@ enum member they belong to (member name -> code via harness/ref/hapstatus.py), n
 from __future__ import annotations
 
 import asyncio
+import collections
 import enum
 import itertools
 import json
@@ -1000,6 +1001,263 @@ def coap_positional(case):
     return dict(ids=case["ids"], results=[case["table"][str(k[1])] for k in case["ids"]])
 
 
+# ---------------------------------------------------------------- extraction cross-check (vm_compute)
+# A small deterministic sample of the (request line, raw driver answer) pairs of this run is re-evaluated
+# inside Coq with vm_compute on the SAME Model/CharIO.v functions the driver calls (ocaml/drv_c13.ml), and
+# the full structured results are compared.  Takes extraction + ocaml/drv*.ml out of the single point of trust.
+class XSampler:
+    """Keeps, per (request kind, answer class), the `per` requests with the smallest crc32 of the line."""
+
+    def __init__(self, per=2):
+        self.per, self.groups = per, {}
+
+    @staticmethod
+    def group_of(line, ans):
+        t = line.split(" ")
+        kind = t[0] + ("-" + t[1] + "-" + t[4] if t[0] == "ipput" and len(t) > 4 else "")
+        cls = (ans.partition(";")[2] if t[0] == "bleput" else ans).split()
+        return kind, ("num" if t[0] == "tsc" else (cls[0] if cls else ""))
+
+    def feed(self, lines, answers):
+        import zlib
+        for line, ans in zip(lines, answers):
+            g = self.groups.setdefault(self.group_of(line, ans), [])
+            h = (zlib.crc32(line.encode()), line, ans)
+            if len(g) < self.per or h < g[-1]:
+                if h not in g:
+                    g.append(h)
+                    g.sort()
+                    del g[self.per:]
+
+    def sample(self, cap=30):
+        out, depth = [], 0
+        while len(out) < cap and depth < self.per:          # round-robin over the groups: every kind first
+            for key in sorted(self.groups):
+                if depth < len(self.groups[key]) and len(out) < cap:
+                    out.append(self.groups[key][depth][1:])
+            depth += 1
+        return out
+
+
+def _gz(s):
+    return f"({int(s)})%Z"
+
+
+def _gn(s):
+    n = int(s)
+    if n < 0:
+        raise ValueError("negative N")
+    return f"{n}%N"
+
+
+def _goz(s):
+    return "None" if s == "-" else f"(Some {_gz(s)})"
+
+
+def _gcid(s):
+    a, i = s.split(".")
+    return f"({_gn(a)}, {_gn(i)})"
+
+
+def _glist(items):
+    return "[" + "; ".join(items) + "]"
+
+
+def _gcids(s):
+    return "([] : list cid)" if s == "-" else _glist(_gcid(x) for x in s.split(","))
+
+
+def _greqs(s):
+    if s == "-":
+        return "([] : list (cid * Z))"
+    return _glist("({}, {})".format(_gcid(k), _gz(v)) for k, v in (x.split("=") for x in s.split(",")))
+
+
+def _gentry(s):
+    if s == "M":
+        return "Malformed"
+    tag, a, i, st, v = s.split(":")
+    if tag != "E":
+        raise ValueError("entry")
+    return f"(Entry {_gn(a)} {_gn(i)} {_goz(st)} {_goz(v)})"
+
+
+def _gentries(es):
+    return "([] : list entry)" if not es else _glist(_gentry(e) for e in es)
+
+
+def _gpdures(rs):
+    if not rs:
+        return "([] : list pdures)"
+    return _glist(f"(PBytes {_gz(r[1:])})" if r[0] == "B" else f"(PStatus {_gn(r[1:])})" for r in rs)
+
+
+def _grd(s):
+    return f"(fun k : cid => existsb (cid_eqb k) {_gcids(s)})"
+
+
+def gallina_of_request(line):
+    """request line -> (Gallina term of type list Z, answer shape); mirrors `handle` in ocaml/drv_c13.ml."""
+    t = line.split(" ")
+    if t[0] == "tsc" and len(t) == 2:
+        return f"[to_status_code {_gz(t[1])}]", "tsc"
+    if t[0] == "fcl" and len(t) >= 3:
+        return f"x_read (Ok (format_characteristic_list {_goz(t[1])} {_gentries(t[3:])} {_gcids(t[2])}))", "read"
+    if t[0] == "ipget" and len(t) >= 3:
+        return f"x_read (Ok (ip_get {_gcids(t[2])} {_goz(t[1])} {_gentries(t[3:])}))", "read"
+    if t[0] == "ipput" and len(t) >= 5:
+        reply = {"204": "W204", "nolist": "WNoList"}.get(t[4]) or (f"(W207 {_gentries(t[5:])})" if t[4] == "207" else None)
+        if reply is None:
+            raise ValueError("code")
+        f = "ip_put_unrepaired" if t[1] == "u" else "ip_put"
+        return f"x_write ({f} {_grd(t[3])} {_greqs(t[2])} {reply})", "write"
+    if t[0] == "coapread" and len(t) >= 2:
+        return f"x_read (coap_read {_gcids(t[1])} {_gpdures(t[2:])})", "read"
+    if t[0] == "coapput" and len(t) >= 3:
+        return f"x_write (coap_put {_grd(t[2])} {_greqs(t[1])} {_gpdures(t[3:])})", "write"
+    if t[0] == "bleput" and len(t) == 3:
+        ps = []
+        if t[2] != "-":
+            for x in t[2].split(","):
+                i, p, rd = x.split(":")
+                perm = {"t": "BTimed", "w": "BWrite"}.get(p, "BReadOnly")
+                ps.append("({}, ({}, {}))".format(_gn(i), perm, "true" if rd == "1" else "false"))
+        its = []
+        if t[1] != "-":
+            for x in t[1].split(","):
+                kv, s1, s2 = x.split("/")
+                k, v = kv.split("=")
+                its.append(f"(mk_bitem {_gcid(k)} {_gz(v)} {_gn(s1)} {_gn(s2)})")
+        gps = "([] : list (N * (bperm * bool)))" if not ps else _glist(ps)
+        gits = "([] : list bitem)" if not its else _glist(its)
+        return f"x_ble (ble_put (x_perm {gps}) (x_rd {gps}) {gits})", "ble"
+    raise ValueError("unsupported request")
+
+
+X_PRELUDE = """From Coq Require Import List NArith ZArith Bool.
+From AHK Require Import Lib.Res Model.CharIO.
+Import ListNotations.
+Definition x_oz (o : option Z) : list Z := match o with None => [0%Z; 0%Z] | Some z => [1%Z; z] end.
+Definition x_d (d : descr) : list Z :=
+  match d with DCode c => [1%Z; c] | DUnknownWith s => [2%Z; s] | DPdu n => [3%Z; Z.of_N n] end.
+Definition x_od (o : option descr) : list Z := match o with None => [0%Z; 0%Z] | Some d => x_d d end.
+Definition x_k (k : cid) : list Z := [Z.of_N (fst k); Z.of_N (snd k)].
+Definition x_rr (p : cid * rres) : list Z :=
+  x_k (fst p) ++ x_oz (rr_status (snd p)) ++ x_od (rr_descr (snd p)) ++ x_oz (rr_value (snd p)).
+Definition x_wr (p : cid * wres) : list Z := x_k (fst p) ++ [fst (snd p)] ++ x_d (snd (snd p)).
+Definition x_lu (p : cid * Z) : list Z := x_k (fst p) ++ [snd p].
+Definition x_res {A} (f : A -> list Z) (r : res cerr A) : list Z :=
+  match r with Ok a => 0%Z :: f a | Err (PduStatusError n) => [1%Z; Z.of_N n] | Crash => [2%Z] | OutOfFuel => [3%Z] end.
+Definition x_wrs (rs : dict wres) : list Z := Z.of_nat (length rs) :: flat_map x_wr rs.
+Definition x_lus (l : list (cid * Z)) : list Z := Z.of_nat (length l) :: flat_map x_lu l.
+Definition x_read (r : res cerr (dict rres)) : list Z :=
+  x_res (fun d => Z.of_nat (length d) :: flat_map x_rr d) r.
+Definition x_write (r : res cerr (dict wres * dict Z)) : list Z :=
+  x_res (fun p => x_wrs (fst p) ++ x_lus (snd p)) r.
+Definition x_ble (p : list (cid * Z) * res cerr (dict wres)) : list Z := x_lus (fst p) ++ x_res x_wrs (snd p).
+Definition x_perm (ps : list (N * (bperm * bool))) (i : N) : bperm :=
+  match find (fun p => (fst p =? i)%N) ps with Some p => fst (snd p) | None => BReadOnly end.
+Definition x_rd (ps : list (N * (bperm * bool))) (i : N) : bool :=
+  match find (fun p => (fst p =? i)%N) ps with Some p => snd (snd p) | None => false end.
+"""
+
+
+def _xd(tok):
+    if tok == "-":
+        return [0, 0]
+    return [{"c": 1, "u": 2, "p": 3}[tok[0]], int(tok[1:])]
+
+
+def _xoz(tok):
+    return [0, 0] if tok == "-" else [1, int(tok)]
+
+
+def _xk(tok):
+    a, i = tok.split(".")
+    return [int(a), int(i)]
+
+
+def _xwrs(toks):
+    out = [len(toks)]
+    for tok in toks:
+        k, st, d = tok.split(":")
+        out += _xk(k) + [int(st)] + _xd(d)
+    return out
+
+
+def _xlus(toks):
+    out = [len(toks)]
+    for tok in toks:
+        k, v = tok.split("=")
+        out += _xk(k) + [int(v)]
+    return out
+
+
+def _xres(toks, ok):
+    """driver outcome tokens -> expected list; None marks 'any number' (error code not printed)."""
+    if not toks:
+        raise ValueError("empty outcome")
+    if toks[0] == "ok":
+        return [0] + ok(toks[1:])
+    if toks[0] == "err":
+        return [1, int(toks[1]) if len(toks) > 1 else None]
+    return [{"crash": 2, "fuel": 3}[toks[0]]]
+
+
+def expected_of_answer(ans, shape):
+    """raw driver answer (order preserved, not canonicalised) -> the list of integers x_* must produce."""
+    t = ans.split()
+    if shape == "tsc":
+        return [int(ans)]
+    if shape == "read":
+        def ok(toks):
+            out = [len(toks)]
+            for tok in toks:
+                k, st, d, v = tok.split(":")
+                out += _xk(k) + _xoz(st) + _xd(d) + _xoz(v)
+            return out
+        return _xres(t, ok)
+    if shape == "write":
+        def ok(toks):
+            if toks[0] != "R" or "L" not in toks:
+                raise ValueError("write answer")
+            li = toks.index("L")
+            return _xwrs(toks[1:li]) + _xlus(toks[li + 1:])
+        return _xres(t, ok)
+    if shape == "ble":
+        n, sep, o = ans.partition(";")
+        nt = n.split()
+        if sep != ";" or not nt or nt[0] != "N":
+            raise ValueError("ble answer")
+        return _xlus(nt[1:]) + _xres(o.split(), _xwrs)
+    raise ValueError(shape)
+
+
+def vm_crosscheck(ctx, sample):
+    """sample: [(request line, raw driver answer)].  Returns (requests evaluated, disagreements, details)."""
+    from common import coq_eval
+    body, shapes = [X_PRELUDE], []
+    for line, _ in sample:
+        term, shape = gallina_of_request(line)
+        shapes.append(shape)
+        body.append(f"Eval vm_compute in ({term}).")
+    out = coq_eval(ctx["verif"], "C13", "crosscheck", "\n".join(body) + "\n", timeout=120)
+    blocks = re.split(r"(?m)^\s*= ", out)[1:]
+    bad = []
+    if len(blocks) != len(sample):
+        bad.append(dict(request="*", why=f"{len(blocks)} vm_compute results for {len(sample)} requests"))
+    for blk, (line, ans), shape in zip(blocks, sample, shapes):
+        got = [int(x) for x in re.findall(r"-?\d+", blk.rsplit(":", 1)[0])]
+        try:
+            want = expected_of_answer(ans, shape)
+        except (ValueError, KeyError, IndexError) as e:
+            bad.append(dict(request=line, driver=ans, vm_compute=got, why=f"unparsable driver answer: {e!r}"))
+            continue
+        if len(got) != len(want) or any(w is not None and w != g for g, w in zip(got, want)):
+            bad.append(dict(request=line, driver=ans, vm_compute=got, expected_from_driver=want))
+    return len(blocks), len(bad), bad
+
+
 # ---------------------------------------------------------------- run
 class Reporter:
     def __init__(self):
@@ -1048,6 +1306,15 @@ def run(ctx):
     import logging
     logging.getLogger("aiohomekit").setLevel(logging.CRITICAL)     # rejected PDUs are logged as warnings
     drv = Driver(ctx["driver"])
+    xs = XSampler()
+    _raw_batch = drv.batch
+
+    def _recording_batch(lines):      # every request of the run passes through here; answers are unchanged
+        lines = list(lines)
+        answers = _raw_batch(lines)
+        xs.feed(lines, answers)
+        return answers
+    drv.batch = _recording_batch
     cov = Coverage("a case counts when it is distinct and exercises the mapping: read = at least one requested id or one "
                    "reply entry; write = at least one written characteristic and (a 207 with >= 1 entry, or a 204); "
                    "CoAP = at least one id and one result; BLE = at least one item")
@@ -1233,6 +1500,27 @@ def run(ctx):
                  sample=dict(stream="bleput", case=c, impl=res) if idx % 1501 == 3 else None,
                  ble_src=c["src"], ble_items=len(c["items"]), ble_result=res.partition(" ; ")[2].split(" ")[0])
     loop.close()
+
+    # ---- extraction cross-check: a sample of the requests above, re-evaluated with vm_compute inside Coq
+    if not replay:
+        import time
+        t0 = time.time()
+        sample = xs.sample(26)
+        # ip_put_unrepaired is only requested when a listener drop is being shrunk: ask the driver for the
+        # unrepaired variant of sampled ipput requests so that this request kind is always covered
+        ulines = [" ".join(["ipput", "u"] + l.split(" ")[2:]) for l, _ in sample if l.startswith("ipput f ")][:4]
+        sample = [s for s in sample if s[0] not in ulines] + list(zip(ulines, _raw_batch(ulines)))
+        try:
+            n_x, k_x, bad_x = vm_crosscheck(ctx, sample)
+        except Exception as e:  # noqa  (coqc failure, unrenderable request): a failed cross-check, not a silent skip
+            n_x, k_x, bad_x = 0, 1, [dict(request="*", why=f"cross-check could not be evaluated: {e!r}"[:1500])]
+        kinds = collections.Counter(XSampler.group_of(l, a)[0] for l, a in sample)
+        cov.extra["vm_compute_crosscheck"] = {"requests": n_x, "disagreements": k_x, "by_request_kind": dict(sorted(kinds.items())),
+                                              "wall_s": round(time.time() - t0, 2)}
+        if k_x:
+            rep.add("extraction-vs-vm_compute", f"{k_x} of {n_x} sampled driver answers differ from vm_compute of the same "
+                    f"Model/CharIO.v call (first: {str(bad_x[0])[:300]})", False, disagreements=bad_x[:5],
+                    broken="extraction / ocaml/drv_c13.ml <-> Coq kernel evaluation")
 
     cov.extra["exhaustive"] = True
     nm = 3 if tier == "quick" else 4
